@@ -10,10 +10,10 @@ open Lean PonyVerif.Drive PonyVerif.Model.DbSession
   P = {"k":"skip"} | {"k":"write","w":n} | {"k":"mark","n":n} | {"k":"observe"} | {"k":"raise","e":exc}
     | {"k":"seq","ps":[P..]} | {"k":"try","p":P,"catch":[exc..],"h":P}
     | {"k":"with","o":O,"p":P} | {"k":"call","o":O,"bodies":[P..]}   (execution i runs bodies[min(i, len-1)])
-    | {"k":"bottle","redirect":[exc..],"bodies":[P..]}
+    | {"k":"bottle","resp":[exc..],"err":[exc..],"bodies":[P..]}   (isinstance(e, HTTPResponse) / isinstance(e, HTTPError))
     | {"k":"iter","o":O,"steps":[{"writes":[..],"commit":b,"late":[..],"fin":"yield"|"ret"|{"raise":exc},"resume":"next"|"close"|{"throw":exc}}..]}
     | {"k":"flask","hooked":b,"view":P}
-  O = {"retry":n,"ddl":b,"ser":b,"sid":n,"allowed":T,"retryable":T}, T = {"yes":[exc..],"raises":[[exc,exc]..]}  (everything else: no)
+  O = {"retry":n,"ddl":b,"ser":b,"sid":n,"allowed":T,"retryable":T,"allowed_callable":b,"retry_callable":b}, T = {"yes":[exc..],"raises":[[exc,exc]..]}  (everything else: no)
   exc = "u<n>" | constructor name
   reply {"out":"ret"|{"raise":exc}, "committed":[..], "pending":[..], "counter":n, "session":b, "ncommit":n, "trace":[n | [rows..]],
          "attempts":n (only for a top-level call/bottle)}
@@ -84,7 +84,8 @@ def predOfJson (j : Json) : Except String (Exc → PredR) := do
 
 def optsOfJson (j : Json) : Except String Opts := do
   pure { retry := ← natD j "retry" 0, ddl := ← boolD j "ddl" false, serializable := ← boolD j "ser" false,
-         sid := ← natD j "sid" 0, allowed := ← predOfJson (optField j "allowed"), retryable := ← predOfJson (optField j "retryable") }
+         sid := ← natD j "sid" 0, allowed := ← predOfJson (optField j "allowed"), retryable := ← predOfJson (optField j "retryable"),
+         allowedCallable := ← boolD j "allowed_callable" false, retryCallable := ← boolD j "retry_callable" false }
 
 def envOfJson (j : Json) : Except String Env := do
   if j.isNull then return {}
@@ -135,8 +136,9 @@ partial def progOfJson (env : Env) (j : Json) : Except String Prog := do
     pure (.call (← optsOfJson (optField j "o")) (pick bs))
   | "bottle" =>
     let bs ← (← argArr j "bodies").mapM (progOfJson env)
-    let rd ← excsOfJson (optField j "redirect")
-    pure (.call (bottleOpts env (fun e => rd.contains e)) (pick bs))
+    let rs ← excsOfJson (optField j "resp")
+    let er ← excsOfJson (optField j "err")
+    pure (.call (bottleOpts env (fun e => rs.contains e) (fun e => er.contains e)) (pick bs))
   | "iter" =>
     let steps ← (← argArr j "steps").mapM stepOfJson
     pure (.iter (← optsOfJson (optField j "o")) steps)
